@@ -23,7 +23,7 @@
 From Coq Require Import List NArith Bool Arith Strings.String.
 From Atlas Require Import Base.Bytes Dir.DirModel Dir.DirProofs Dir.DirDetect Dir.DirEdits Dir.DirGlob
   Dir.DirRefuted Dir.DirWriters Dir.DirExact Dir.DirReason Dir.DirToyHash
-  Dir.DirConsumersModel Dir.DirConsumers Dir.DirFormatsModel Dir.DirFormats Dir.DirReasonIgn.
+  Dir.DirConsumersModel Dir.DirConsumers Dir.DirFormatsModel Dir.DirFormats Dir.DirReasonIgn Dir.DirFlywayEdit.
 Import ListNotations.
 
 Section C06.
@@ -563,6 +563,18 @@ Theorem C06_format_read_edit_changes :
   NoDup (map fst fs') -> fs' <> fs.
 Proof. exact glob_read_edit_changes. Qed.
 
+(** The same for Flyway: FlywayDir.Files selects and orders by path only
+    ([flyway_selected]: the files that survive the baseline logic, before the
+    paths are joined), so an edit of the bytes of a selected file -- at a
+    path that occurs once in the tree -- changes Files(), and
+    [C06_format_change_detected] refuses it. *)
+Theorem C06_flyway_read_edit_changes :
+  forall (t1 t2 : tree) (p : list bytes) (c c' : bytes),
+  ~ In p (map fst (t1 ++ t2)) ->
+  In (p, c) (flyway_selected (t1 ++ (p, KFile c) :: t2)) -> c <> c' ->
+  flyway_files (t1 ++ (p, KFile c') :: t2) <> flyway_files (t1 ++ (p, KFile c) :: t2).
+Proof. exact flyway_read_edit_changes. Qed.
+
 (** FlywayDir.Files returns nothing but regular V/B/R *.sql files outside
     hidden directories, under their slash-joined path, with their bytes. *)
 Theorem C06_flyway_reads_only_candidates :
@@ -633,6 +645,7 @@ Print Assumptions C06_archive_roundtrip_flyway_refuted.
 Print Assumptions C06_format_reads_spec.
 Print Assumptions C06_format_read_edit_changes.
 Print Assumptions C06_flyway_reads_only_candidates.
+Print Assumptions C06_flyway_read_edit_changes.
 Print Assumptions C06_files_from_last_checkpoint.
 Print Assumptions C06_reason_edited_ignored.
 Print Assumptions C06_reason_first_difference.
@@ -843,3 +856,11 @@ Example ex_check_dir :
   check_dir_url toy_hs true s_file None [] false t = PErrNotExist /\
   check_dir_url toy_hs true s_mem None [] false t = PValidated (TV VOk).
 Proof. vm_compute. repeat split; try reflexivity. do 5 eexists. reflexivity. Qed.
+
+(* round 5: the hypotheses of C06_flyway_read_edit_changes are met by sub/V3__s.sql of ex_tree *)
+Example ex_flyway_edit :
+  let t1 := firstn 9 ex_tree in let t2 := skipn 10 ex_tree in
+  ex_tree = t1 ++ ([bs "sub"; bs "V3__s.sql"], KFile (bs "S3;")) :: t2 /\
+  In ([bs "sub"; bs "V3__s.sql"], bs "S3;") (flyway_selected ex_tree) /\
+  flyway_files (t1 ++ ([bs "sub"; bs "V3__s.sql"], KFile (bs "X;")) :: t2) <> flyway_files ex_tree.
+Proof. vm_compute. split; [reflexivity|]. split; [tauto|discriminate]. Qed.
